@@ -693,3 +693,71 @@ func (r *c29FixedRand) Read(p []byte) (int, error) {
 	binary.BigEndian.PutUint32(p, r.v)
 	return 4, nil
 }
+
+// TestC29_CompleteVersusAllocate: moving a tunnel's index from the pending table to the main table
+// is one step. While one goroutine completes a handshake (initiator side, HandshakeManager.Complete)
+// another one allocates an index for a new handshake, with an index generator that can only produce
+// the completing tunnel's index. Whatever the interleaving, the allocation must find that index
+// taken (in the pending table before the move, in the main table after it) and fail; it must never
+// hand the same index to the second handshake. Real goroutines, run under generated repetition counts;
+// a run in which the two calls never overlap proves nothing and is counted as such.
+func TestC29_CompleteVersusAllocate(t *testing.T) {
+	c29Setup()
+	vk.Check(t, 30, func(rt *rapid.T) {
+		realReader := rand.Reader
+		defer func() { rand.Reader = realReader }()
+		idx := rapid.Uint32Range(1, 1<<31).Draw(rt, "index")
+		rand.Reader = &c29FixedRand{real: realReader, v: idx}
+		w := c29NewWorld(c29Quiet{}, nil, nil)
+		iters := rapid.IntRange(50, 300).Draw(rt, "iterations")
+		dup, failed := 0, 0
+		a1, a2 := c29Peers[0].addrs[0], c29Peers[1].addrs[0]
+		for it := 0; it < iters; it++ {
+			w.hsm.StartHandshake(a1, nil)
+			hh1 := w.hsm.queryVpnIp(a1)
+			if _, err := w.hsm.allocateIndex(hh1); err != nil {
+				rt.Fatalf("harness: first allocation failed: %v", err)
+			}
+			hh1.hostinfo.remoteIndexId = 77
+			w.hsm.StartHandshake(a2, nil)
+			hh2 := w.hsm.queryVpnIp(a2)
+			if hh1 == nil || hh2 == nil {
+				rt.Fatalf("harness: pending handshakes not found")
+			}
+			var wg sync.WaitGroup
+			var err2 error
+			// stage the two calls behind the handshake manager's lock so that they really contend: the
+			// completion first, the allocation second (in half of the rounds the other way round)
+			w.hsm.Lock()
+			wg.Add(2)
+			first, second := func() { defer wg.Done(); w.hsm.Complete(hh1.hostinfo, w.f) }, func() { defer wg.Done(); _, err2 = w.hsm.allocateIndex(hh2) }
+			if it%2 == 1 {
+				first, second = second, first
+			}
+			go first()
+			time.Sleep(200 * time.Microsecond)
+			go second()
+			time.Sleep(200 * time.Microsecond)
+			w.hsm.Unlock()
+			wg.Wait()
+			if err2 == nil {
+				dup++
+				if hh2.hostinfo.localIndexId == hh1.hostinfo.localIndexId {
+					rt.Fatalf("iteration %d: while the handshake with %v was being completed, a new handshake to %v was given its local index %d as well (the index was in neither table for a moment)", it, a1, a2, idx)
+				}
+			} else {
+				failed++
+			}
+			// clean up for the next round
+			w.hm.DeleteHostInfo(hh1.hostinfo)
+			w.hsm.DeleteHostInfo(hh2.hostinfo)
+			w.hsm.DeleteHostInfo(hh1.hostinfo)
+		}
+		vk.Case(c29PID, fmt.Sprintf("complete-vs-allocate/%d/%d", idx, iters), failed > 0, "concurrent-complete-vs-allocate", fmt.Sprintf("allocation-refused:%v", failed > 0))
+	})
+}
+
+type c29Quiet struct{}
+
+func (c29Quiet) Helper()               {}
+func (c29Quiet) Fatalf(string, ...any) {}
